@@ -168,3 +168,36 @@ _real_time_mod.time = VT.time
 
 import allmydata.util.cputhreadpool as _ctp  # noqa: E402
 _ctp._DISABLED = True
+
+
+# ---------------------------------------------------------------- twisted log errors
+# foolscap's eventual queue and Deferred GC report exceptions through twisted.python.log;
+# collect them (checks decide what they mean) instead of letting them go to stderr.
+from twisted.python import log as _twlog  # noqa: E402
+
+
+LOGGED = []   # (why, failure) of every error reported through twisted.python.log
+
+
+def _log_observer(event):
+    if event.get("isError"):
+        f = event.get("failure")
+        if f is not None and len(LOGGED) < 1000:
+            LOGGED.append((event.get("why"), f))
+
+
+def take_logged(uncaught_only=True):
+    """errors logged since the last call.  uncaught_only: only those reported with no
+    explanation (log.err() in a bare except, as foolscap's eventual queue does for an
+    exception escaping a callback) - deliberate `addErrback(log.err, "why")` reports and
+    'Unhandled error in Deferred' GC reports are dropped."""
+    out = [(w, f) for (w, f) in LOGGED if not uncaught_only or not w]
+    del LOGGED[:]
+    return out
+
+
+_twlog.addObserver(_log_observer)
+try:
+    _twlog.defaultObserver.stop()
+except Exception:  # noqa
+    pass
